@@ -215,7 +215,24 @@ def fam_periodic_lines(rng, kind, quick):
     return B.p
 
 
-FAMS = [fam_rect, fam_circle_in_square, fam_nested_polygons, fam_annulus, fam_rounded, fam_periodic_arcs, fam_periodic_lines]
+def fam_tall_holes(rng, kind, quick):
+    """tall narrow domain (possibly left of the y axis) with two declared holes, one low and one high: the upper hole
+    point has a y coordinate above every x coordinate of the drawing"""
+    B = Builder(kind); ids = base_props(B, kind, rng); settings(B, rng, quick)
+    x0 = rng.choice([-2.0, 0.0, 0.5])
+    W, H = rng.choice([1.0, 1.5]), rng.choice([4.0, 5.0])
+    d = mesh_diameter(W * H / (40 if quick else 400))
+    B.rect(x0, 0.0, x0 + W, H, dict(b=dict(bdry=ids["bdry"][0]), t=dict(bdry=ids["bdry"][1]), l=seg_kw(kind, ids, rng), r=seg_kw(kind, ids, rng)))
+    for (ya, yb) in ((H * 0.1, H * 0.2), (H * 0.7, H * 0.85)):
+        kw = dict(bdry=ids["bdry"][1]) if kind == "fem" or rng.random() < 0.5 else dict(cond=ids["cond"][0])
+        B.rect(x0 + W * 0.3, ya, x0 + W * 0.7, yb, {k: kw for k in "brtl"})
+        B.p["holes"].append(dict(x=x0 + W * 0.5, y=(ya + yb) / 2))
+    B.label(x0 + W * 0.1, H * 0.5, ids["mats"][0], maxarea=d)
+    B.p["features"] = ["tall-holes", kind, "x0=%g" % x0, "minangle%g" % B.p["minangle"], "smart%d" % B.p["dosmartmesh"]]
+    return B.p
+
+
+FAMS = [fam_rect, fam_circle_in_square, fam_nested_polygons, fam_annulus, fam_rounded, fam_periodic_arcs, fam_periodic_lines, fam_tall_holes]
 KINDS = ["fee", "feh", "fem"]
 
 
